@@ -160,6 +160,11 @@ def rule_T(ctx):
     r = w.range_info(lo.iter, State())
     ctx.check(r is not None and vr(r[0]) == '0' and vr(r[1]) == 'self.size()', 'C04.T', f, 'every observation is examined, in order', witness={'range': unparse(lo.iter)},
               node=lo, key='range')
+    exits = [o for o in w.run(lo.body, State({lo.target.id: Rat.atom(lo.target.id)})) if o.kind not in ('fall', 'continue')]
+    ctx.check(not exits, 'C04.T', f, 'the scan never stops early: an observation is examined whatever the ones before it were',
+              witness={'early exits': [{'kind': o.kind, 'when': [repr(c) for c, _ in o.state.conds]} for o in exits],
+                       'why': 'on a track that is not sorted by time, observations inside the span that are stored after a too-late one are dropped'},
+              node=lo, key='early-exit')
     t = unparse(f.node)
     ctx.recognise('track.__transmitAF(self)' in t, 'C04.F', f, 'the feature table is carried over', node=f.node)
 
